@@ -4,6 +4,8 @@ import Req.Client.Authority
 import Req.Client.RedirectLifetime
 import Req.Client.RedirectLoop
 import Req.Client.RedirectArgs
+import Req.Client.RedirectStore
+import Req.Client.AuthorityZone
 /-! Driver lanes of C11 (redirect policies). -/
 namespace Req.Driver.L.C11
 open Req.Proto Req.Redirect
@@ -413,7 +415,69 @@ def laneFam : List String → String
 
 end LoopLanes
 
+/-! ### degenerate arguments (`Req.Redirect.Store`) and RFC 6874 zone text (`Req.Authority` zone part) -/
+
+def decodeDescs (s : String) : Option (List PolicyDesc) :=
+  if s == "-" then some [] else (s.splitOn ";").mapM decodePolicyDesc
+
+/-- `c11degen <prior policies> <policies> <req host> <via hosts> <req headers> <via[0] headers> <probe keys>`:
+a client configured with `prior`, then `SetRedirectPolicy(policies...)` (`-` = no argument). First answer:
+the installed closure (`Store.install`, i.e. the copy) on the raw cells; second answer: the SPEC reading —
+first refusal over the non-nil arguments after dropping nil / `AlwaysCopy()` and duplicates inside lists. -/
+def laneDegen : List String → String
+  | [prior, ps, req, via, rh, vh, probes] =>
+    match decodeDescs prior, decodeDescs ps, decodeHex req, decodeList via, decodeHeaders rh, decodeHeaders vh,
+        decodeList probes with
+    | some prior, some ds, some req, some (v0 :: vs), some rh, some vh, some probes =>
+      let via : Via := { first := ⟨v0, vh⟩, rest := vs.map fun h => ⟨h, []⟩ }
+      let installed := (Store.install (ds.map PolicyDesc.denote)).getD (prior.map PolicyDesc.denote)
+      let (d, h) := compose installed req rh via
+      let eff := if ds.isEmpty then prior else ds
+      let spec := Store.nonNil ((Store.normalize (eff.map PolicyDesc.dedup)).map PolicyDesc.denote)
+      let (d', h') := Store.firstRefusal spec req rh via
+      showDecision d ++ " " ++ showProbes h probes ++ " " ++ showDecision d' ++ " " ++ showProbes h' probes
+    | _, _, _, _, _, _, _ => "bad-op"
+  | _ => "bad-op"
+
+def zoneSide (addr zt port : String) : Option (Req.Authority.ZonedText) := do
+  let a ← decodeHex addr
+  let z ← decodeHex zt
+  let p ← decodePort port
+  pure ⟨a, z, p⟩
+
+def showZoned (t : Req.Authority.ZonedText) : String × Option Bytes :=
+  match t.authority with
+  | none => (b01 (Req.Authority.isRfc6874 t) ++ " undecodable", none)
+  | some a =>
+    let r := a.render
+    (b01 (Req.Authority.isRfc6874 t) ++ " " ++ encodeHex r ++ " " ++ encodeHex (getHostname r) ++ " " ++
+      encodeHex (getDomain r), some r)
+
+/-- `c11zone <addr1> <zone text1> <port1> <addr2> <zone text2> <port2>`: two zoned literals as URL text
+(`[addr%25zonetext]:port`): per side RFC 6874?, `URL.Host` (zone percent-decoded), getHostname, getDomain; then
+SameHost / SameDomain / AllowedHost / AllowedDomain(first) judging a redirect from the first to the second. -/
+def laneZone : List String → String
+  | [a1, z1, p1, a2, z2, p2] =>
+    match zoneSide a1 z1 p1, zoneSide a2 z2 p2 with
+    | some t1, some t2 =>
+      let (s1, r1) := showZoned t1
+      let (s2, r2) := showZoned t2
+      let dec :=
+        match r1, r2 with
+        | some r1, some r2 =>
+          let via : Via := { first := ⟨r1, []⟩ }
+          " ".intercalate [showDecision (sameHostRedirectPolicy.check r2 via),
+            showDecision (sameDomainRedirectPolicy.check r2 via),
+            showDecision ((allowedHostRedirectPolicy [r1]).check r2 via),
+            showDecision ((allowedDomainRedirectPolicy [r1]).check r2 via)]
+        | _, _ => "-"
+      s1 ++ " " ++ s2 ++ " " ++ dec
+    | _, _ => "bad-op"
+  | _ => "bad-op"
+
 def lanes : List (String × (List String → String)) := [
+  ("c11degen", laneDegen),
+  ("c11zone", laneZone),
   ("c11split", laneSplit),
   ("c11host", laneHost),
   ("c11legacy", laneLegacy),
